@@ -77,6 +77,8 @@ struct U_src : public op
   void state_des (scon &sc) const override { sc.des <state> (m_ll); }
   // driver side: allow the stacks [idx, end) to be yielded
   void feed (scon &sc, unsigned end) const { sc.get <state> (m_ll).m_end = end; }
+  // driver side: this execution processes the stacks [from, end)
+  void seek (scon &sc, unsigned from, unsigned end) const { state &st = sc.get <state> (m_ll); st.m_idx = from; st.m_end = end; }
   stack::uptr next (scon &sc) const override
   {
     state &st = sc.get <state> (m_ll);
